@@ -226,6 +226,13 @@ class Writer:
         @param data: [in]: a list of words
         @return: the data start index
         """
+        if data and (min(data) < 0 or max(data) >= (1 << self.word_size)):
+            bad_index, bad_word = next(
+                (i, word) for i, word in enumerate(data) if word < 0 or word >= (1 << self.word_size)
+            )
+            raise FlipJumpWriteFjmException(
+                f"data word {hex(bad_word)} (at index {bad_index}) doesn't fit in {self.word_size} bits."
+            )
         data_start = len(self.data)
         self.data += data
         return data_start
